@@ -202,8 +202,15 @@ pub fn call(a: &MP, b: &MP, op: Operation) -> CallOut {
     call_full(a, b, op, Ft::F64, Pairing::MM)
 }
 
+/// Panics raised inside the library under test (location under /repo/) are expected events that the checks
+/// catch and judge; they are not printed. A panic anywhere else is a bug of the engine and stays loud.
 pub fn silence_panics() {
-    std::panic::set_hook(Box::new(|_| {}));
+    std::panic::set_hook(Box::new(|info| {
+        let in_subject = info.location().map(|l| l.file().starts_with("/repo/")).unwrap_or(false);
+        if !in_subject {
+            eprintln!("MACHINERY: engine panic: {info}");
+        }
+    }));
 }
 
 /// The executable used for child processes: a private copy of this binary, taken once, so that a rebuild
